@@ -43,6 +43,14 @@ def run(ctx):
             cfg = clone_cfg(cfg0, on_error=pol)
             cases.append(mkcase('N%d%s' % (i, pol), cfg, noisy)); cases.append(mkcase('C%d%s' % (i, pol), cfg, clean))
         meta.append((cfg0, clean, noisy, regions, vals))
+    # very many malformed regions in one input: every one is reported, the 1200th like the first
+    big_n = 1200 if ctx['tier'] == 'quick' else 5000
+    clean = b''.join(b'%d\n' % j for j in range(big_n)); noisy = b''.join(b'%d\n%s \n' % (j, [b'}', b']x', b':', b'\xff'][j % 4]) for j in range(big_n))
+    i = n
+    for pol in ('ignore', 'stdout', 'stderr', 'panic'):
+        cfg = lib.new_cfg(on_error=pol)
+        cases.append(mkcase('N%d%s' % (i, pol), cfg, noisy)); cases.append(mkcase('C%d%s' % (i, pol), cfg, clean))
+    meta.append((lib.new_cfg(), clean, noisy, [0] + [1] * big_n, list(range(big_n))))
     def proj(c, r, side):
         out = r['stdout']; err = r['stderr']
         if side == 'impl': out = lib.canon_errlines(out); err = lib.canon_errlines(err)
